@@ -69,7 +69,10 @@ func (r *Run) invoke(fr *Frame, st *State, instr ssa.Instruction, cc *ssa.CallCo
 	tn := typeName(cc.Value.Type())
 	if ct := r.eng.C.ByName[tn]; ct != nil && ct.Kind == "functype" {
 		site = fmt.Sprintf("%s#%d", tn, r.eng.callOrdinal(instr, "dyn:"+tn))
-		return r.applyContract(fr, st, instr, ct, tn, site, args, sig)
+		r.dynFn = fnv
+		outs := r.applyContract(fr, st, instr, ct, tn, site, args, sig)
+		r.dynFn = nil
+		return outs
 	}
 	return r.unknownCall(fr, st, instr, "dyn:"+tn, site, args, sig)
 }
@@ -94,6 +97,7 @@ func (r *Run) callStatic(fr *Frame, st *State, instr ssa.Instruction, fn *ssa.Fu
 			return nil
 		}
 		r.note("inlined", "%s", name)
+		r.siteChecks(fr, st, instr, r.contractFor(fr.fn), name, site, argVars(args), false)
 		outs := r.execFunc(fn, st, args, bind, fr.depth+1, false)
 		var res []Outcome
 		for _, o := range outs {
@@ -114,6 +118,7 @@ func (r *Run) newError(st *State, msg string) *Val {
 
 // unknownCall over-approximates a call with no contract and no body.
 func (r *Run) unknownCall(fr *Frame, st *State, instr ssa.Instruction, name, site string, args []*Val, sig *types.Signature) []Outcome {
+	r.siteChecks(fr, st, instr, r.contractFor(fr.fn), strings.TrimPrefix(name, "dyn:"), site, argVars(args), false)
 	if effectFree(name) {
 		r.note("havoc-result", "%s (effect-free list: result unconstrained, no state change)", name)
 	} else {
@@ -192,6 +197,9 @@ func (r *Run) applyContract(fr *Frame, st *State, instr ssa.Instruction, ct *Con
 		vars[f] = args[i]
 		vars[fmt.Sprintf("$%d", i)] = args[i]
 	}
+	if r.dynFn != nil {
+		vars["$fn"] = r.dynFn
+	}
 	callerCt := r.contractFor(fr.fn)
 	defProps := ctProps(r.ct)
 	env := &Env{r: r, st: st, fr: nil, vars: vars, ctx: site}
@@ -249,6 +257,9 @@ func (r *Run) applyContract(fr *Frame, st *State, instr ssa.Instruction, ct *Con
 	for _, cl := range ct.Ensures {
 		if r.prop != "" && ct.Kind == "func" && !hasProp(ct.clauseProps(cl), r.prop) {
 			continue
+		}
+		if mentionsLocal(cl.Expr) {
+			continue // a statement about the callee's locals says nothing to the caller
 		}
 		used = true
 		st.assume(r.evalBool(post, cl.Expr))
@@ -783,4 +794,27 @@ func (r *Run) fmtVerb(st *State, verb byte, plain bool, a *Val) string {
 		}
 	}
 	return r.fresh("fmt."+string(verb), "String")
+}
+
+func mentionsLocal(x *SX) bool {
+	if x.IsAtom() {
+		return false
+	}
+	if x.Head() == "local" || x.Head() == "callresult" || x.Head() == "called" {
+		return true
+	}
+	for _, e := range x.List {
+		if mentionsLocal(e) {
+			return true
+		}
+	}
+	return false
+}
+
+func argVars(args []*Val) map[string]*Val {
+	m := map[string]*Val{}
+	for i, a := range args {
+		m[fmt.Sprintf("$%d", i)] = a
+	}
+	return m
 }
